@@ -171,6 +171,7 @@ func (x *Ctx) checkUnit(track int, d muxrun.DecSample, e expUnit, next *expUnit,
 // C01 — every accepted unit preserved.
 func C01(x *Ctx) {
 	x.prop = "C01"
+	crossAvailability(x)
 	c, h := x.C, x.H
 	if h.WriteErrs > 0 {
 		x.Stats.Add("C01.skipped_write_error", 1)
